@@ -79,6 +79,14 @@ def to_dap(entry, pup):
     raise vlib.ToolError(f"unknown model command {cmd}")
 
 
+def use_smap(ix, beh):
+    """Which replayed sessions go through a sourceMap: every third one, and every second of those in which
+    the set of a source file is replaced at least once (where the adapter's per-source records matter)."""
+    if sum(1 for e in beh if e["cmd"] == "setBreakpoints") >= 2:
+        return ix % 2 == 0
+    return ix % 3 == 2
+
+
 def with_source_map(steps, pup):
     """The same history as a client whose workspace lives elsewhere sees it: launch carries a sourceMap
     (target prefix -> client prefix) and every setBreakpoints names the file by its client path.  Path
@@ -462,7 +470,7 @@ def run(rep, tier, replay):
     def job(ix):
         b = chosen[ix]
         steps = [{"cmd": "launch", "args": {"program": pup["prog"]}}] + [to_dap(e, pup)[0] for e in b]
-        if ix % 3 == 2:
+        if use_smap(ix, b):
             steps = with_source_map(steps, pup)
         per = 40 if tier == "quick" else 90
         o = run_session(exe, steps, work, ix, timeout_s=per)
@@ -470,7 +478,7 @@ def run(rep, tier, replay):
             o2 = run_session(exe, steps, work, ix, timeout_s=per)   # an overloaded machine must not become a finding
             if o2["end"] == "ok":
                 o = o2
-        o["smap"] = ix % 3 == 2
+        o["smap"] = use_smap(ix, b)
         return o
 
     outs = [None] * len(chosen)
